@@ -61,6 +61,14 @@ def gen_column(rng, kind, n, pattern="none"):
         if kind == "dt_tz":
             s = s.dt.tz_localize("UTC").dt.tz_convert(rng.choice(["Europe/Berlin", "UTC", "America/New_York"]))
         return s
+    if kind in ("td_ms", "td_s"):
+        # timedelta64 of a coarser unit: stored as microseconds, comes back in its own unit with the same durations
+        unit = kind[3:]
+        ints = [rng.randrange(-10 ** 6, 10 ** 6) for _ in range(n)]
+        s = pd.Series(np.array(ints, dtype="int64").astype(f"timedelta64[{unit}]") if n else np.array([], dtype=f"timedelta64[{unit}]"))
+        if any(m):
+            s[np.array(m, dtype=bool)] = pd.NaT
+        return s
     if kind == "td":
         ints = [rng.randrange(-10 ** 9, 10 ** 9) * 1000 for _ in range(n)]   # representable in microseconds
         s = pd.Series(np.array(ints, dtype="int64").astype("timedelta64[ns]") if n else np.array([], dtype="timedelta64[ns]"))
